@@ -24,10 +24,10 @@ import (
 )
 
 const (
-	frameSize = conn.VerifC20SealedFrameSize // sealed frame on the wire
-	dataMax   = conn.VerifC20DataMaxSize     // payload bytes per frame
-	lenSize    = conn.VerifC20DataLenSize    // encrypted chunk-length field
-	plainFrame = conn.VerifC20TotalFrameSize // sealed frame minus the tag
+	frameSize  = conn.VerifC20SealedFrameSize // sealed frame on the wire
+	dataMax    = conn.VerifC20DataMaxSize     // payload bytes per frame
+	lenSize    = conn.VerifC20DataLenSize     // encrypted chunk-length field
+	plainFrame = conn.VerifC20TotalFrameSize  // sealed frame minus the tag
 )
 
 type finding struct{ sig, what string }
